@@ -229,9 +229,26 @@ Proof.
   assert (HI : In (VSet 6 (EArg (APath (PGlobal 2)))) (svars S0)) by (simpl; auto).
   assert (HF : In 2 (sfuncs S0)) by (simpl; auto).
   split; [|split].
-  - exact (F st1 st1' 6 2 HI HF (proj1 nv_c17_invariant) E1).
-  - split. reflexivity. exact (F st1b st1b' 6 2 HI HF Inv1b E1b).
+  - exact (F st1 st1' 6 2 HI HF E1).
+  - split. reflexivity. exact (F st1b st1b' 6 2 HI HF E1b).
   - reflexivity.
+Qed.
+(* conjunct 3 holds from ANY state (its premise `Inv S st` was removed after the audit): a state that is NOT
+   reachable and violates the invariant -- the names of functions 2 and 3 share ONE function object -- on which
+   the Load nevertheless runs through *)
+Definition st_bad : state := mkState [FBody 7] [] [] [(2, VFunc 0%nat); (3, VFunc 0%nat)] [].
+Lemma nv_c17_state_3_noninv :
+  ~ Inv S0 st_bad /\
+  (exists st', exec_list st_bad (version_of S0 (beta0 2)) = Some st' /\
+               gget st' 6 = gget st' 2 /\ gget st' 2 = VFunc 0%nat /\ gget st' 3 = VFunc 0%nat).
+Proof.
+  split.
+  - intros I. assert (C : KFunc 2 = KFunc 3); [|discriminate C].
+    apply (inv_inj S0 st_bad I (KFunc 2) (KFunc 3) 0%nat); simpl; auto.
+  - destruct (c17_state S0 (beta0 2) WF0) as (_ & _ & F & _).
+    eexists. split; [vm_compute; reflexivity|].
+    split; [|split; reflexivity].
+    refine (proj1 (F st_bad _ 6 2 _ _ _)); simpl; auto.
 Qed.
 Lemma nv_c17_state_4 :
   slots st1' = [VFunc 1%nat; VFunc 3%nat] /\ exists y, insts st1' = (insts st1 ++ y)%list.
@@ -416,7 +433,7 @@ Proof.
   - split; [reflexivity|]. exact (Z t1 t1' 9 (VInt 7) (or_intror (or_intror (or_intror (or_intror (or_introl eq_refl))))) F1).
   - split; [reflexivity|]. exact (C t1 t1' 5 5 (or_intror (or_introl eq_refl)) F1).
   - split; [reflexivity|].
-    pose proof (F t1 t1' 6 2 (or_intror (or_intror (or_introl eq_refl))) (or_introl eq_refl) InvT1 F1) as [EQ [a G]].
+    pose proof (F t1 t1' 6 2 (or_intror (or_intror (or_introl eq_refl))) (or_introl eq_refl) F1) as [EQ [a G]].
     split; [exact EQ|]. rewrite EQ. reflexivity.
   - exact (O t1 t1' F1).
 Qed.
